@@ -5,7 +5,8 @@
    quantified functions; the hypotheses about them are written out in each statement. *)
 From Coq Require Import List String Ascii Bool ZArith.
 From Helm Require Import Values.Tree Chart.Paths Chart.Archive Chart.Files Chart.Save Chart.Load Gen.Limits
-  Chart.Wf Chart.LoadProofs Chart.AgreeProofs Chart.RecProofs Chart.Examples15.
+  Chart.Wf Chart.LoadProofs Chart.AgreeProofs Chart.RecProofs Chart.Examples15
+  Chart.Ignore Chart.Utf8 Chart.Match Chart.MatchProofs Chart.IgnoreProofs.
 Import ListNotations.
 Local Open Scope string_scope.
 
@@ -209,3 +210,100 @@ Example C15_invalid_not_packaged_ex :
   String.eqb (path_base "../x") "../x" = false /\ String.eqb (path_base "a/") "a/" = false.
 Proof. exact base_examples. Qed.
 Print Assumptions C15_invalid_not_packaged_ex.
+
+(* ---------- filepath.Match, as a function (Chart/Match.v), and what .helmignore excludes ---------- *)
+(* the model of filepath.Match runs its loops on fuel; the fuel never runs out: every query is
+   answered matched / not matched / ErrBadPattern *)
+Theorem C15_match_total :
+  forall pattern name : string,
+  gmatch pattern name = MYes \/ gmatch pattern name = MNo \/ gmatch pattern name = MBad.
+Proof. exact gmatch_total. Qed.
+Print Assumptions C15_match_total.
+
+(* a pattern without the metacharacters * ? [ \ matches exactly itself; '*' matches exactly the
+   names without a separator; '*' followed by such a literal matches exactly the names that end
+   in the literal after a separator-free stem (and is never malformed); '?' matches exactly one
+   rune that is not the separator *)
+Theorem C15_match_characterised :
+  (forall p n, is_plain p = true -> gmatch p n = if String.eqb p n then MYes else MNo) /\
+  (forall n, gmatch "*" n = if contains_char slash n then MNo else MYes) /\
+  (forall lit n, is_plain lit = true -> lit <> "" ->
+     (gmatch ("*" ++ lit) n = MYes <-> exists x, n = x ++ lit /\ contains_char slash x = false) /\
+     (gmatch ("*" ++ lit) n = MYes \/ gmatch ("*" ++ lit) n = MNo)) /\
+  (forall n, gmatch "?" n = MYes <->
+     exists a t, n = String a t /\ a <> slash /\ sdrop (snd (decode_rune n)) n = "").
+Proof. exact (conj gmatch_literal (conj gmatch_star (conj gmatch_star_lit gmatch_question))). Qed.
+Print Assumptions C15_match_characterised.
+
+(* ErrBadPattern: a malformed first chunk is reported for every name (this is what parseRule's
+   probe filepath.Match(rule, "abc") relies on) -- the documented malformed patterns --, but a
+   malformed later chunk only when the scan reaches it: the probe accepts "x*[" *)
+Theorem C15_match_bad_pattern :
+  (forall p star chunk rest, scan_chunk p = (star, chunk, rest) -> match_chunk chunk "" = KBad ->
+     forall n, gmatch p n = MBad) /\
+  (forall n, gmatch "[" n = MBad /\ gmatch "[a" n = MBad /\ gmatch "[a-" n = MBad /\ gmatch "[]" n = MBad /\
+     gmatch "[]a]" n = MBad /\ gmatch "[-a]" n = MBad /\ gmatch "[a-]" n = MBad /\ gmatch "a\" n = MBad /\
+     gmatch "[\" n = MBad /\ gmatch "*[" n = MBad /\ gmatch "[^" n = MBad /\ gmatch "[^]" n = MBad) /\
+  (gmatch_err "x*[" = false /\ gmatch "x*[" "xy" = MBad /\ gmatch "x*[" "abc" = MNo).
+Proof. exact (conj first_chunk_bad (conj gmatch_bad_examples probe_misses_malformed)). Qed.
+Print Assumptions C15_match_bad_pattern.
+
+Example C15_match_ex :
+  gmatch "[a-c]" "b" = MYes /\ gmatch "[a-c]" "d" = MNo /\ gmatch "[^a-c]" "d" = MYes /\ gmatch "[^a-c]" "b" = MNo /\
+  gmatch "[\]]" "]" = MYes /\ gmatch "[\-]" "-" = MYes /\ gmatch "[a-c]*" "bxyz" = MYes /\ gmatch "[a-c]*" "b/x" = MNo /\
+  gmatch "[/]" "/" = MYes /\ gmatch "[^a]" "/" = MYes /\ gmatch "?" "/" = MNo /\ gmatch "*" "a/b" = MNo /\
+  gmatch "a*/b" "axx/b" = MYes /\ gmatch "\*" "*" = MYes /\ gmatch "\*" "a" = MNo /\ gmatch "templates/.?*" "templates/.x" = MYes /\
+  gmatch "templates/.?*" "templates/." = MNo.
+Proof. exact gmatch_class_examples. Qed.
+Print Assumptions C15_match_ex.
+
+(* Files excluded by .helmignore never appear in a packaged archive, from the TEXT of the file and
+   with filepath.Match as a function: for the rules Parse+AddDefaults build from the text, `helm
+   package` of the directory (LoadDir, Package.Run's checks, Save) gives the result it gives on the
+   directory from which the excluded files have been deleted, and so does LoadDir; and if no line is
+   a negation, a file is among the deleted ones whenever its last path element is a line that is a
+   plain word, or ends in the suffix of a line *suffix, or it lies below a directory named by a
+   line word/ . *)
+Theorem C15_helmignore_excluded :
+  forall (md_enc : meta -> string) (lock_enc : lockv -> string) (json_valid : string -> bool)
+         (dep_names : meta -> list string)
+         (md_merge : meta -> string -> option meta) (lock_dec : string -> option (option lockv))
+         (parse_values : string -> option val) (untar : string -> tstream)
+         (sanitize : meta -> meta) (is_semver : string -> bool) (rest_valid : meta -> bool)
+         (maxt maxf : Z) (text : string) (ps : list pat) (fuel : nat) (ver : string) (walk : list file),
+  parse_ignore gmatch_err (Some text) = Some ps ->
+  let ign := rules_ignore gmatch_ok ps in
+  let kept := filter (fun f => negb (eff_ignored ign (f_name f))) walk in
+  load_dir_walk md_merge lock_dec parse_values untar sanitize is_semver rest_valid maxt maxf ign fuel walk =
+  load_dir_walk md_merge lock_dec parse_values untar sanitize is_semver rest_valid maxt maxf (fun _ _ => false) fuel kept /\
+  match load_dir_walk md_merge lock_dec parse_values untar sanitize is_semver rest_valid maxt maxf ign fuel walk with
+  | inr c => package md_enc lock_enc json_valid sanitize is_semver rest_valid dep_names ver c
+  | inl _ => None
+  end =
+  match load_dir_walk md_merge lock_dec parse_values untar sanitize is_semver rest_valid maxt maxf (fun _ _ => false) fuel kept with
+  | inr c => package md_enc lock_enc json_valid sanitize is_semver rest_valid dep_names ver c
+  | inl _ => None
+  end /\
+  (Forall (fun l => String.prefix "!" (trim_space l) = false) (ignore_lines text) ->
+   forall f, In f walk -> wf_fname (f_name f) = true ->
+     (exists l, In l (ignore_lines text) /\ word_line l /\ path_base (f_name f) = l) \/
+     (exists l lit x, In l (ignore_lines text) /\ ext_line lit l /\ path_base (f_name f) = x ++ lit /\ contains_char slash x = false) \/
+     (exists l w d, In l (ignore_lines text) /\ dir_line w l /\ In d (ancestors (f_name f)) /\ wf_fname d = true /\ path_base d = w) ->
+     ~ In f kept).
+Proof. exact helmignore_excluded. Qed.
+Print Assumptions C15_helmignore_excluded.
+
+(* a text with a comment, *.bak, a blank line, .git/ and secret.txt: its lines, the three kinds of
+   line, and the rules evaluated on paths *)
+Example C15_helmignore_excluded_ex :
+  ignore_lines ign_text = ["# build output"; "*.bak"; "  "; ".git/"; "secret.txt"] /\
+  Forall (fun l => String.prefix "!" (trim_space l) = false) (ignore_lines ign_text) /\
+  ext_line ".bak" "*.bak" /\ dir_line ".git" ".git/" /\ word_line "secret.txt" /\
+  exists ps, parse_ignore gmatch_err (Some ign_text) = Some ps /\
+    rules_ignore gmatch_ok ps "docs/old/notes.bak" false = true /\
+    eff_ignored (rules_ignore gmatch_ok ps) ".git/objects/ab/cd" = true /\
+    rules_ignore gmatch_ok ps "conf/secret.txt" false = true /\
+    rules_ignore gmatch_ok ps "templates/.hidden" false = true /\
+    rules_ignore gmatch_ok ps "templates/deployment.yaml" false = false.
+Proof. exact ign_text_example. Qed.
+Print Assumptions C15_helmignore_excluded_ex.
